@@ -219,6 +219,31 @@ Definition alloc_sbgp (hs hl : N) (body : list N) : res aout :=
   if negb (hs =? 20 + bN (v =? 1) 4 + 8 * cnt) then rej
   else let '(it, s) := rd_loop_x body cnt 8 s in afin true s cnt (8 * it) it.
 
+(* ---- subs: NO size guard.  for i < entryCount { delta u32; n u16; for j < n { (v1 ? u32 : u16) u8 u8 u32; append }
+        if sr.AccError() != nil { return nil, err }; append }.  SubsSample = 2 x uint32 + 2 x uint8 = 12 bytes,
+        SubsEntry = uint32 + slice header = 32 bytes.  Fuel: every iteration that does not leave consumes >= 6 bytes.
+        Result: (ok, entries, bytes requested, iterations of both loops) ---- *)
+Fixpoint subs_loop (body : list N) (fuel : nat) (esz cnt i : N) (s : rd) (al it : N) : res (bool * N * N * N) :=
+  match fuel with
+  | O => OutOfFuel
+  | S f =>
+    if cnt <=? i then Ok (true, i, al, it)
+    else
+      let '(_, s) := rd_n body 4 s in
+      let '(ssc, s) := rd_n body 2 s in
+      let s := rd_loop body ssc esz s in
+      if r_err s then Ok (false, i, al + 12 * ssc, it + 1 + ssc)
+      else subs_loop body f esz cnt (i + 1) s (al + 12 * ssc + 32) (it + 1 + ssc)
+  end.
+Definition alloc_subs (hs hl : N) (body : list N) : res aout :=
+  let '(vf, s) := rd_n body 4 rd0 in
+  let v := version_of vf in
+  let '(cnt, s) := rd_n body 4 s in
+  match subs_loop body (S (length body)) (if v =? 1 then 10 else 8) cnt 0 s 0 0 with
+  | Ok (ok, n, al, it) => Ok (mkO (ok && negb (r_err s)) n al it)
+  | Err => Err | Panic => Panic | OutOfFuel => OutOfFuel
+  end.
+
 (* ---- elst: make([]ElstEntry, entryCount) (uint64, int64, int16, int16 = 24 bytes) BEFORE the version switch ---- *)
 Definition alloc_elst (hs hl : N) (body : list N) : res aout :=
   let '(vf, s) := rd_n body 4 rd0 in
@@ -335,7 +360,7 @@ Definition alloc_sgpd_alst (g : bool) (hs hl : N) (body : list N) : res aout :=
 Definition name_of (bs : list N) : list N := firstn 4 (skipn 4 bs).
 
 Inductive tbox := TbTrun | TbStts | TbCtts | TbStsc | TbStsz | TbStco | TbCo64 | TbStss | TbSdtp | TbSaiz | TbSaio | TbSenc
-                | TbSbgp | TbElst | TbTfra | TbSidx | TbPssh | TbSsix | TbTrefType | TbLeva.
+                | TbSbgp | TbSubs | TbElst | TbTfra | TbSidx | TbPssh | TbSsix | TbTrefType | TbLeva.
 
 Definition aeqb_name (a b : list N) : bool :=
   match a, b with
@@ -357,6 +382,7 @@ Definition tbox_of (nm : list N) : option tbox :=
   if aeqb_name nm [115;97;105;111] then Some TbSaio else
   if aeqb_name nm [115;101;110;99] then Some TbSenc else
   if aeqb_name nm [115;98;103;112] then Some TbSbgp else
+  if aeqb_name nm [115;117;98;115] then Some TbSubs else
   if aeqb_name nm [101;108;115;116] then Some TbElst else
   if aeqb_name nm [116;102;114;97] then Some TbTfra else
   if aeqb_name nm [115;105;100;120] then Some TbSidx else
@@ -381,6 +407,7 @@ Definition alloc_table (t : tbox) (sr_path : bool) (hs hl : N) (body : list N) :
   | TbSaio => alloc_saio hs hl body
   | TbSenc => alloc_senc sr_path hs hl body
   | TbSbgp => alloc_sbgp hs hl body
+  | TbSubs => alloc_subs hs hl body
   | TbElst => alloc_elst hs hl body
   | TbTfra => alloc_tfra hs hl body
   | TbSidx => alloc_sidx hs hl body
